@@ -3,6 +3,7 @@ package main
 import (
 	"fmt"
 	"go/constant"
+	"go/token"
 	"go/types"
 	"math/big"
 	"strings"
@@ -22,6 +23,13 @@ type Env struct {
 	clause  *Clause
 	depth   int
 	side    *[]string // ground instances of background axioms needed by the evaluated term
+	strong  bool      // position where the formula is used as a hypothesis (side facts are conjoined)
+}
+
+func (e *Env) flip() *Env {
+	n := *e
+	n.strong = !e.strong
+	return &n
 }
 
 func (e *Env) addSide(f string) {
@@ -97,6 +105,28 @@ func (vc *VC) loopEnv(b *ssa.BasicBlock, st *State, phiOver map[ssa.Value]string
 			}
 			return TV{}, false
 		}
+		if name == "$range" {
+			// the slice a range-over-slice loop iterates over
+			for _, ins := range b.Instrs {
+				phi, ok := ins.(*ssa.Phi)
+				if !ok || phi.Comment != "rangeindex" {
+					continue
+				}
+				for _, ins2 := range b.Instrs {
+					if bo, ok := ins2.(*ssa.BinOp); ok && bo.Op == token.LSS {
+						if add, ok := bo.X.(*ssa.BinOp); ok && add.X == phi {
+							if call, ok := bo.Y.(*ssa.Call); ok {
+								if bi, ok := call.Call.Value.(*ssa.Builtin); ok && bi.Name() == "len" {
+									sv := call.Call.Args[0]
+									return TV{T: vc.val(sv), Ty: sv.Type()}, true
+								}
+							}
+						}
+					}
+				}
+			}
+			return TV{}, false
+		}
 		if name == "$visited" {
 			// visited set of the map range feeding this loop
 			for _, ins := range b.Instrs {
@@ -161,6 +191,9 @@ func identName(dr *ssa.DebugRef) string {
 
 // evalBool evaluates a clause used as an assumption: side facts are conjoined.
 func (vc *VC) evalBool(env *Env, e Expr, c *Clause) string {
+	en0 := *env
+	en0.strong = true
+	env = &en0
 	t, side := vc.evalSide(env, e, c)
 	if len(side) == 0 {
 		return t
@@ -170,6 +203,9 @@ func (vc *VC) evalBool(env *Env, e Expr, c *Clause) string {
 
 // evalGoal evaluates a clause used as a proof goal: side facts become hypotheses.
 func (vc *VC) evalGoal(env *Env, e Expr, c *Clause) string {
+	en0 := *env
+	en0.strong = false
+	env = &en0
 	t, side := vc.evalSide(env, e, c)
 	if len(side) == 0 {
 		return t
@@ -232,10 +268,11 @@ func (e *Env) eval(x Expr) TV {
 	case *EIdent:
 		return e.ident(x.Name)
 	case *EUnary:
-		v := e.eval(x.X)
 		if x.Op == "!" {
+			v := e.flip().eval(x.X)
 			return TV{T: "(not " + v.T + ")", Ty: boolT}
 		}
+		v := e.eval(x.X)
 		return TV{T: "(- " + v.T + ")", Ty: v.Ty}
 	case *EBinary:
 		return e.binary(x)
@@ -282,6 +319,7 @@ func (e *Env) eval(x Expr) TV {
 	case *EQuant:
 		en := e
 		var bs []string
+		var bnames []string
 		var guards []string
 		for _, b := range x.Vars {
 			t, err := vc.P.resolveType(b.Type, e.pkgPath)
@@ -292,6 +330,7 @@ func (e *Env) eval(x Expr) TV {
 			n := fmt.Sprintf("%s!q%d", b.Name, vc.nfresh)
 			n = q(n)
 			bs = append(bs, fmt.Sprintf("(%s %s)", n, vc.pre.sortOf(t)))
+			bnames = append(bnames, n)
 			en = en.bind(b.Name, TV{T: n, Ty: t})
 			// quantifiers over references range over allocated objects only
 			switch types.Unalias(t).Underlying().(type) {
@@ -306,16 +345,31 @@ func (e *Env) eval(x Expr) TV {
 		en2 := *en
 		en2.side = &inner
 		body := en2.eval(x.Body)
+		// side facts are valid axiom instances: as hypotheses they are conjoined, as goals they are assumed;
+		// the range guards of reference-typed binders restrict the quantifier itself
+		ax := inner[len(guards):]
+		bt := body.T
+		if len(ax) > 0 {
+			if en.strong {
+				bt = "(and " + strings.Join(ax, " ") + " " + bt + ")"
+			} else {
+				bt = "(=> (and " + strings.Join(ax, " ") + ") " + bt + ")"
+			}
+		}
 		if x.Forall {
-			bt := body.T
-			if len(inner) > 0 {
-				bt = "(=> (and " + strings.Join(inner, " ") + ") " + bt + ")"
+			if len(guards) > 0 {
+				bt = "(=> (and " + strings.Join(guards, " ") + ") " + bt + ")"
+			}
+			if pats := inferPatterns(bnames, bt); pats != "" && !strings.Contains(bt, "(forall ") && !strings.Contains(bt, "(exists ") {
+				bt = "(! " + bt + " " + pats + ")"
 			}
 			return TV{T: fmt.Sprintf("(forall (%s) %s)", strings.Join(bs, " "), bt), Ty: boolT}
 		}
-		bt := body.T
-		if len(inner) > 0 {
-			bt = "(and " + strings.Join(inner, " ") + " " + bt + ")"
+		if len(guards) > 0 {
+			bt = "(and " + strings.Join(guards, " ") + " " + bt + ")"
+		}
+		if pats := inferPatterns(bnames, bt); pats != "" && !strings.Contains(bt, "(forall ") && !strings.Contains(bt, "(exists ") {
+			bt = "(! " + bt + " " + pats + ")"
 		}
 		return TV{T: fmt.Sprintf("(exists (%s) %s)", strings.Join(bs, " "), bt), Ty: boolT}
 	}
@@ -545,7 +599,13 @@ func (e *Env) binary(x *EBinary) TV {
 	vc := e.vc
 	switch x.Op {
 	case "&&", "||", "==>", "<==>":
-		a, b := e.eval(x.X), e.eval(x.Y)
+		var a TV
+		if x.Op == "==>" {
+			a = e.flip().eval(x.X)
+		} else {
+			a = e.eval(x.X)
+		}
+		b := e.eval(x.Y)
 		op := map[string]string{"&&": "and", "||": "or", "==>": "=>", "<==>": "="}[x.Op]
 		return TV{T: fmt.Sprintf("(%s %s %s)", op, a.T, b.T), Ty: boolT}
 	case "in":
@@ -686,6 +746,13 @@ func (e *Env) call(x *ECall) TV {
 				ref = "(s_ref " + v.T + ")"
 			}
 			return TV{T: fmt.Sprintf("(>= %s %s)", ref, vc.getH(e.old, "$next", "Int")), Ty: boolT}
+		case "allocated": // allocated(p): p is nil or an object allocated by now
+			v := e.eval(x.Args[0])
+			ref := v.T
+			if _, ok := types.Unalias(v.Ty).Underlying().(*types.Slice); ok {
+				ref = "(s_ref " + v.T + ")"
+			}
+			return TV{T: fmt.Sprintf("(and (<= 0 %s) (< %s %s))", ref, ref, vc.getH(e.cur, "$next", "Int")), Ty: boolT}
 		case "card":
 			v := e.eval(x.Args[0])
 			if rm, ok := v.Ty.(*RawMap); ok {
@@ -909,7 +976,7 @@ func (e *Env) specCall(sf *SpecFunc, args []Expr) TV {
 	if e.depth > 20 {
 		e.fail("spec function recursion too deep: %s", sf.Name)
 	}
-	en := &Env{vc: vc, pkgPath: sf.PkgPath, vars: map[string]TV{}, cur: e.cur, old: e.old, clause: e.clause, depth: e.depth + 1, side: e.side}
+	en := &Env{vc: vc, pkgPath: sf.PkgPath, vars: map[string]TV{}, cur: e.cur, old: e.old, clause: e.clause, depth: e.depth + 1, side: e.side, strong: e.strong}
 	for k, v := range e.vars {
 		if strings.HasPrefix(k, "$") {
 			en.vars[k] = v
@@ -949,6 +1016,7 @@ func (vc *VC) resolveModifies(c *Contract) map[string]bool {
 		return out
 	}
 	for _, m := range c.Modifies {
+		m = strings.Trim(m, "\"")
 		if m == "*" {
 			for h := range vc.P.allWrittenHeaps() {
 				out[h] = true
